@@ -17,7 +17,7 @@ def _elem(shape, i, kind):
     if shape == "s":
         return 200 + i
     if shape == "z":
-        return [0, None, "", 0.0, []][(i - 1) % 5] if kind not in ("set", "frozenset") else [0, None, ""][(i - 1) % 3]
+        return [0, None, "", 0.0, []][(i - 1) % 5] if kind not in ("set", "frozenset") else [0, None, "", frozenset(), b""][(i - 1) % 5]      # distinct, hashable
     if shape == "e":
         return ()
     if shape == "p":
